@@ -173,6 +173,15 @@ func drvStd(pairs bool) [][]Action {
 				out = append(out, []Action{newAct("", ""), {A: "Add", Tree: varQ(ps[i], st.sym(ps[i]))}, {A: "Add", Tree: varQ(ps[j], st.sym(ps[j]))}, {A: "Render"}})
 			}
 		}
+		// two std packages of one name after a path that already holds the first numbered variant, prefix on/off
+		if len(ps) >= 2 {
+			for _, pfx := range []string{"", "pkg"} {
+				st := &symtab{}
+				holder := "example.com/x/" + n + "1"
+				out = append(out, []Action{newAct("", pfx), {A: "Add", Tree: varQ(holder, st.sym(holder))}, {A: "Add", Tree: varQ(ps[0], st.sym(ps[0]))},
+					{A: "Add", Tree: varQ(ps[1], st.sym(ps[1]))}, {A: "Render"}})
+			}
+		}
 		// each with a same-named third-party path, both orders, prefix on/off
 		third := "example.com/x/" + n
 		for _, pfx := range []string{"", "pkg"} {
@@ -296,6 +305,10 @@ func drvHints(r *rand.Rand, n int) [][]Action {
 		for j := 0; j < m; j++ {
 			p := fmt.Sprintf("h%d/%s", j, []string{"d", "e", "fmt", "q"}[r.Intn(4)])
 			paths = append(paths, p)
+			if r.Intn(12) == 0 {
+				// an underscore alias for a path that is never referenced is just another unused hint
+				h = append(h, Action{A: "ImportAlias", P: fmt.Sprintf("unused%d/u", j), N: "_"})
+			}
 			if r.Intn(2) == 0 {
 				h = append(h, Action{A: "ImportName", P: p, N: []string{"d", "e", "nm" + strconv.Itoa(j)}[r.Intn(3)]})
 			} else {
